@@ -330,7 +330,12 @@ def _execute(trace, ctx):
 
         style = _random.Random(call["uid"] * 7919 + len(quads) * 31 + len(cfg["init"])) if call.get("styled") else None
         try:
-            doc = writers.WRITERS[fmt](quads, style)
+            if fmt == "xml" and style is not None and call["uid"] % 2:
+                # (every other styled RDF/XML document in the abbreviated forms: rdf:nodeID on node and on property elements,
+                # nested and label-free nodes)
+                doc = writers.write_rdfxml_rich(quads, style)
+            else:
+                doc = writers.WRITERS[fmt](quads, style)
         except ValueError:
             continue
         if call.get("reseed") is not None:
